@@ -125,7 +125,7 @@ func foldEvents(evs []tapEvent, zkPath string) string {
 // quiet: how long the simulator waits after the last stimulus before it asserts convergence. TreeCache retries a
 // failed read after 10 s today; the bound is deliberately far above that (virtual time is cheap) so that a
 // different retry policy does not turn into an alarm.
-const quiet = 150 * time.Second
+const quiet = 600 * time.Second
 
 func zktap(c *harness.Ctx) {
 	defer func() {
@@ -376,14 +376,14 @@ func tapBubble(c *harness.Ctx) {
 			c.Probe("view-converged-after-connection-faults")
 		}
 	} else if validOnly {
-		// Bounded liveness: every stimulus is over, every held notification delivered, 150 virtual seconds of
+		// Bounded liveness: every stimulus is over, every held notification delivered, 600 virtual seconds of
 		// quiet have passed (TreeCache retries a failed read after 10 s, the ZooKeeper client reconnects within
 		// about a second and re-registers its watches, which fire at once for whatever changed meanwhile). With
 		// only valid announcements and deletions in the history its fold is the tree as it stands, whatever was
 		// coalesced or lost on the way.
 		kind := "fault-free run"
 		if !faultFree {
-			kind = "connection faults stopped 150 virtual seconds ago"
+			kind = "connection faults stopped 600 virtual seconds ago"
 		}
 		c.Fail("C19", "fold-zookeeper", "fold-zookeeper", "%s, all notifications delivered: the tracked announcements are %q but the fold of ZooKeeper's change history (= its current tree) is %q; TreeCache emitted %d events; stimuli=%v", kind, view, foldEvents(now, zkPath), len(history), desc)
 		return
